@@ -369,6 +369,9 @@ func callOracle(c CallCase, o *h.Obs) *h.Fail {
 		if i >= 0 {
 			cell = kindName(ft.In(i))
 		}
+		if i >= 0 && p.either[i] {
+			return h.Failf("C11|calls|one-char-string|"+p.shape+"|->"+cell, "%s\nGo has no conversion from a string to a byte / rune: the call fails with an error, or (the documented special case) the one character of the string arrives\n%s", ctx(), msg)
+		}
 		return h.Failf("C11|calls|wrong-arg|"+p.shape+"|->"+cell, "%s\n%s", ctx(), msg)
 	}
 	want := expectResult(results)
@@ -404,7 +407,7 @@ func TestC11(t *testing.T) {
 	h.Run(c, "members", c.N(40000, 160000), genMemCase, memOracle)
 	c.Rule("history: 2-3 values of struct types that share the field names A,B,C,D,E at different positions (4 unnamed struct literals, 3 reflect.StructOf types, 3 function-local types all named P, script-made make(struct{...}) with drawn field order), bound by pointer or by value; 2-4 member reads/writes in drawn order (the same field name is preferred on consecutive steps), every read judged against Go's own field access on a reference copy, final states compared; non-trivial = at least two distinct struct types in the history")
 	h.Run(c, "history", c.N(20000, 80000), genHistCase, histOracle)
-	c.Rule("callbacks: script function (fixed arity, variadic, wrong arity) passed where a MakeFunc host expects func(T1..Tn)(R1..Rm), n<=3, m<=2; host invokes it 1-2 times with pool values; the function reports its parameters to a Go recorder and returns literals / its own parameters / wrong counts, throws or hits a runtime error; with and without try/catch around the enclosing call; all cases non-trivial")
+	c.Rule("callbacks: script function (fixed arity, variadic, fixed+variadic, wrong arity) passed where a MakeFunc host expects func(T1..Tn)(R1..Rm), n<=3 (n = 4..7 one time in five), m<=2; host invokes it 1-2 times with pool values; the function reports its parameters to a Go recorder and returns literals / its own parameters / wrong counts, throws or hits a runtime error; with and without try/catch around the enclosing call; all cases non-trivial")
 	h.Run(c, "callbacks", c.N(40000, 160000), genCbCase, cbOracle)
 	c.Rule("identity: Go pool value (46 types x seeds) bound to x and read back through 0-4 of: list element, map member/index, Go id(x), Go variadic idv, script identity functions (fixed, 2-ary, variadic, list-returning), variable, multi-assignment, ternary, parentheses; non-trivial = at least one step; distinct by (type, seed, source)")
 	h.Run(c, "identity", c.N(25000, 100000), genIdCase, idOracle)
@@ -417,4 +420,10 @@ func TestC11(t *testing.T) {
 	c.Rule("reconv: one script list or map handed to a Go function ([]int64 / []float64 / []string / map[string]int64 parameter) 2-4 times and changed in place between the calls; every call must receive the container as it is at that moment; all cases non-trivial. arrayptr: a list of 0-5 elements (untyped or []int64) passed to a Go parameter of type [3]int64, [0]int64, *[3]int64 or *[3]interface{}: an error or an exact image, never a panic")
 	h.Run(c, "reconv", c.N(4000, 30000), genReconv, oracleReconv)
 	h.Run(c, "arrayptr", c.N(1500, 8000), genArrayPtr, oracleArrayPtr)
+	c.Rule("gocall: the signatures, arguments and reference of `calls` (0-3 fixed parameters, variadic tail half of the time, spread half of the time, 15% wrong counts) with the call launched by the go statement, through the routes name / variable / map member / parenthesised; the recording host hands its parameters to the oracle over a channel; judged when the reference says the call succeeds: no error, the host is invoked (waited for, 20 s before 'never') with exactly the planned parameters; all cases non-trivial")
+	h.Run(c, "gocall", c.N(2500, 12000), genGoCallCase, goCallOracle)
+	c.Rule("vcallbacks: script function passed where a MakeFunc host expects a VARIADIC func type func(T1..Tk, ...E) [interface{} | int64], k = 0-3, E = int64 / string / interface{} (70%) or any pool type; directly, as second parameter, bound to a variable first, or as the element of a []func parameter; the host invokes it 1-3 times with 0, 1 or several (up to 4) variadic arguments, written one by one or handed over as a slice (f(a, xs...)); the script function is variadic from the same position (60%), from an earlier position (30%) or not variadic (10%: only its fixed parameters are judged); it reports its parameters to a Go recorder and returns nothing, its variadic list, the length of that list, or throws; all cases non-trivial")
+	h.Run(c, "vcallbacks", c.N(1, 40000), genVCbCase, vcbOracle)
+	c.Rule("liveargs: a Go function (recording MakeFunc host reached by name / variable / map member / deferred, or a pointer-receiver method with interface{} parameters; fixed or variadic, plain or with a spread last argument) called with 2-4 argument expressions over 1-2 places (element of a bound or script-made typed slice, element of a bound []interface{}, field of a bound *S, field of an element of a bound []S, dereferenced bound pointer; controls: variable, script list element, map entry): an argument reads a place, calls a script function or a Go function that overwrites a place and returns a number (or a list that is spread), or is a literal; parameter types are the value's own type, interface{}, or a converting type; reference: one left-to-right walk over the list; non-trivial = some place is read and overwritten by a later argument (80% by construction)")
+	h.Run(c, "liveargs", c.N(1, 30000), genLiveCase, liveOracle)
 }
